@@ -463,6 +463,62 @@ func verifC14_ClientSubscriptions() {
 	}
 }
 
+func vUnsubscribePacket(id uint16, topics []string) *packets.UnsubscribePacket {
+	u := packets.NewControlPacket(packets.Unsubscribe).(*packets.UnsubscribePacket)
+	u.Topics, u.MessageID = topics, id
+	return u
+}
+
+// verifC14_MultiFilterPackets: SUBSCRIBE / UNSUBSCRIBE packets that list several filters, one of
+// them malformed, in either position, through the REAL handleConn / readLoop / processSubscribe /
+// processUnsubscribe. The routing table and the session (what the broker acknowledged, persists
+// and restores) agree on every filter; a filter the client unsubscribed (the broker always
+// answers UNSUBACK) is not routed any more; when the client is gone nothing of it is routed.
+func verifC14_MultiFilterPackets() {
+	b := vC16Broker(0)
+	c1 := vConnect("c", false, "")
+	c1.script = append(c1.script, vSubscribePacket(1, []string{"a/1"}, []byte{1}))
+	bad := "zz/#/x"
+	kind := verifChoose("packetWithMalformedFilter", 4)
+	switch kind {
+	case 0:
+		c1.script = append(c1.script, vSubscribePacket(2, []string{"c/3", bad}, []byte{1, 1}))
+	case 1:
+		c1.script = append(c1.script, vSubscribePacket(2, []string{bad, "c/3"}, []byte{1, 1}))
+	case 2:
+		c1.script = append(c1.script, vUnsubscribePacket(2, []string{"a/1", bad}))
+	case 3:
+		c1.script = append(c1.script, vUnsubscribePacket(2, []string{bad, "a/1"}))
+	}
+	go b.handleConn(c1)
+	verifQuiesce()
+	verifAssert(c1.connack == int(packets.Accepted), "connected")
+	cl := b.clients["c"]
+	connected := cl != nil && !cl.disconnected()
+	if connected {
+		sess := b.sessMgr.get("c")
+		verifAssert(sess != nil, "connected-client-has-a-session")
+		for _, f := range []string{"a/1", "c/3"} {
+			_, inSession := sess.info.Topics[f]
+			verifAssert(vRouted(b, f, "c") == inSession, "routing-table-and-session-agree-on-every-filter")
+		}
+		_, hasBad := sess.info.Topics[bad]
+		verifAssert(!hasBad, "malformed-filter-is-not-recorded-in-the-session")
+		if kind >= 2 {
+			verifAssert(!vRouted(b, "a/1", "c"), "unsubscribed-filter-is-not-routed-any-more")
+			verifCover("unsubscribe-listing-a-malformed-filter")
+		} else {
+			verifAssert(vRouted(b, "a/1", "c"), "earlier-subscription-survives-a-rejected-packet")
+			verifCover("subscribe-listing-a-malformed-filter")
+		}
+	}
+	close(c1.drop)
+	verifQuiesce()
+	for _, f := range []string{"a/1", "c/3"} {
+		verifAssert(!vRouted(b, f, "c"), "no-routing-residue-after-the-client-is-gone")
+	}
+}
+
 // ---- retransmission follows the connection that holds the session ---------------------------
 
 var vResendTick chan time.Time
